@@ -70,10 +70,10 @@ def snap(v, drop=()):
         # jsonargparse Path objects: the path as given, where it points to, and the mode
         return ("path", type(v).__name__, str(v.relative), str(v.absolute), v.mode)
     if isinstance(v, SecretStr):
-        return ("SecretStr", v.get_secret_value())
+        return ("SecretStr", repr(v.get_secret_value()))
     if isinstance(v, type) or callable(v) and hasattr(v, "__qualname__"):
         return ("object", getattr(v, "__module__", "?") + "." + v.__qualname__)
-    return (type(v).__module__ + "." + type(v).__name__, repr(v))
+    return (type(v).__module__ + "." + type(v).__name__, re.sub(r" at 0x[0-9a-fA-F]+", "", repr(v)))
 
 
 def first_diff(a, b, path=""):
